@@ -70,9 +70,11 @@ def create(root: Path, fmt: str, comp: str, eps: int, attrs=None, hashes=("sha25
                           structure(fmt, comp, eps, attrs, hashes))
 
 
-def ids_of(examples: Iterable[dict]) -> tuple[list[int], list[str]]:
-    """Extract ids and verify payloads.  Returns (ids, problems)."""
+def ids_of(examples: Iterable[dict], skip_payload: set | None = None) -> tuple[list[int], list[str]]:
+    """Extract ids and verify payloads.  Returns (ids, problems).  `skip_payload`: ids whose payload was
+    deliberately written differently (invalid-but-accepted writes)."""
     ids, problems = [], []
+    skip_payload = skip_payload or set()
     for ex in examples:
         try:
             ident = int(np.asarray(ex["id"]).reshape(()))
@@ -80,9 +82,15 @@ def ids_of(examples: Iterable[dict]) -> tuple[list[int], list[str]]:
             problems.append(f"example without usable id: {exc!r}")
             continue
         ids.append(ident)
+        if ident in skip_payload:
+            continue
         x = np.asarray(ex.get("x"))
         want = payload(ident)
-        if x.shape != want.shape or x.astype(np.float32).tobytes() != want.tobytes():
+        try:
+            same = x.shape == want.shape and x.astype(np.float32).tobytes() == want.tobytes()
+        except (ValueError, TypeError):
+            same = False
+        if not same:
             if len(problems) < 5:
                 problems.append(f"payload of id {ident} is {x!r}, expected {want!r} (torn or mixed-up example)")
     return ids, problems
